@@ -55,7 +55,14 @@ RULE = ('The component option table is derived at run time from FlowIR.type_flow
         'injected, as tests/test_dosini.py does / only the fields that are set, as DOSINIExperimentConfiguration does). '
         'Family e2e: a legacy package is authored on disk, DOSINIExperimentConfiguration(createInstanceFiles=True, '
         'primitive=False) writes the instance files (with and without a user variables file, platform default / p1), '
-        'and the written files are loaded. Excluded by rule: options in FLOWIR_ONLY (%s) and the docker backend (needs '
+        'and the written files are loaded. Family backendvar: the options that only the legacy format knows for a '
+        'backend (Dosini.options_for_backend minus the FlowIR vocabulary: the simulator sim_* keys, carried as component '
+        'variables) x every backend x backend named literally / through a component variable / through a global '
+        'variable. Histories (each step judged like a single case: what is loaded equals what that step wrote): family '
+        'rewrite = all ordered pairs (thorough: triples) of 12 structurally different descriptions (1-4 stages, other '
+        'component names, environments/sandbox, status, output, variables, backends) written one after the other into '
+        'ONE directory with update_existing=True; family history = the same pairs, plus (literal backend) x (legacy-only '
+        'backend options with a backend given through a variable), as complete round trips in ONE process. Excluded by rule: options in FLOWIR_ONLY (%s) and the docker backend (needs '
         'docker.image); documents that FlowIRConcrete.validate() rejects or whose source instance cannot be resolved; '
         'bool literals for numeric options, float literals where the schema does not name float; an explicitly empty '
         'list for an option whose default list is not empty (restartHookOn: [] - the legacy loader reads an empty value '
@@ -168,6 +175,11 @@ def build(case):
         return G.platform_doc(case['variant']), case['platform']
     if fam == 'base':
         return G.base_doc(), 'default'
+    if fam == 'stages':
+        return G.stages_doc(case['n']), 'default'
+    if fam == 'backendvar':
+        return G.backend_var_doc(case['backend'], case['how'], case['key'], case['value'],
+                                 BACKEND_NEEDS.get(case['backend'], [])), 'default'
     raise HarnessError('unknown case family %r' % (fam,))
 
 
@@ -190,13 +202,74 @@ def _fail_exc(col, case, stage, e, files):
     return 'fail'
 
 
-def judge(col, case):
+class _Step(object):
+    """collector seen by one step of a history: failures are recorded against the WHOLE history (so that a replay
+    re-executes all of it), everything else is kept local"""
+
+    def __init__(self, col, whole, idx, step):
+        self.col, self.whole, self.idx, self.step = col, whole, idx, step
+
+    def evaluated(self, n=1):
+        pass
+
+    def nontriv(self, key):
+        pass
+
+    def sample(self, case):
+        pass
+
+    def outcome(self, label, n=1):
+        pass
+
+    def count(self, name, n=1):
+        if name.startswith('_judged:'):
+            self.col.count(name, n)
+
+    def note(self, text):
+        self.col.note(text)
+
+    def fail(self, case, why, observed=None, sig=None):
+        self.col.fail(self.whole, 'step %d of %d (%s): %s' % (self.idx + 1, len(self.whole['steps']),
+                                                               self.step['family'], why),
+                      dict(observed or {}, step=self.idx), sig='%s:%s' % (self.whole['family'], sig or why))
+
+
+def judge_history(col, case):
+    """family history: every step is a complete write+load in a fresh directory, all in this process;
+    family rewrite: every step writes into the SAME directory (update_existing=True) and loads it.
+    Each step is judged exactly like a single case: what is loaded equals what that step wrote."""
+    from verif.gen.pkg import scratch_dir
+    col.evaluated()
+    results = []
+    with scratch_dir('c19-') as shared:
+        for i, step in enumerate(case['steps']):
+            step = dict(step, style=case['style'])
+            r = judge(_Step(col, case, i, step), step, workdir=shared if case['family'] == 'rewrite' else None)
+            results.append(r)
+            if r == 'excluded':
+                break
+    if 'excluded' in results:
+        col.outcome('excluded:history-step-invalid')
+        col.count('excluded_history_step_invalid')
+        return 'excluded'
+    col.nontriv(case)
+    if 'fail' in results:
+        col.outcome('FAIL:%s' % case['family'])
+        return 'fail'
+    col.outcome('same:%s' % case['family'])
+    return 'same'
+
+
+def judge(col, case, workdir=None):
+    import contextlib
     from verif.gen.pkg import scratch_dir
     from experiment.model.frontends.dosini import Dosini
+    if case['family'] in ('history', 'rewrite'):
+        return judge_history(col, case)
     doc, platform = build(case)
     col.evaluated()
     fam = case['family']
-    with scratch_dir('c19-') as d:
+    with (scratch_dir('c19-') if workdir is None else contextlib.nullcontext(workdir)) as d:
         excluded = None
         errors = []
         stage = 'source'
@@ -368,6 +441,18 @@ BACKEND_NEEDS = {
 }
 
 
+def legacy_backend_keys():
+    """legacy option names that Dosini.options_for_backend lists for some backend and that are not FlowIR options"""
+    from experiment.model.frontends.dosini import Dosini
+    from experiment.model.frontends.flowir import FlowIR
+    known = set(Dosini.dosini_to_flowir_translate_map()) | set(Dosini._known_flowir)
+    keys = set()
+    for backend in FlowIR.Backends:
+        opts = Dosini.options_for_backend(backend)
+        keys.update(opts['required'] + opts['optional'])
+    return sorted(keys - known)
+
+
 def fixed_cases():
     cases = []
     for scope in ('global', 'stage0', 'stage1', 'component', 'shadow', 'shadow-stage'):
@@ -486,7 +571,41 @@ def run(ctx):
             for cand in (viable[d] if ctx.thorough else picks(viable[d], 2)):
                 cases.append({'family': 'backend', 'via': 'component', 'settings': pre + [[d, cand]]})
     cases += fixed_cases()
+    # options that only the legacy format knows for a backend (not in the FlowIR schema): carried as variables
+    legacy_keys = legacy_backend_keys()
+    ctx.count('legacy_only_backend_options', len(legacy_keys))
+    backendvar = []
+    for backend in flowir_mod.FlowIR.Backends:
+        if any(p in FLOWIR_ONLY for p, _ in BACKEND_NEEDS.get(backend, [])):
+            continue
+        for how in ('literal', 'component-variable', 'global-variable'):
+            for key in legacy_keys:
+                for value in ('5', '1.5:3.0'):
+                    backendvar.append({'family': 'backendvar', 'backend': backend, 'how': how, 'key': key,
+                                       'value': value})
+    cases += backendvar
     cases = with_styles(cases)
+    # histories: several round trips in one process (fresh directories) and several writes into one directory
+    hist = []
+    reps = G.HISTORY_CASES + [c for c in backendvar if c['how'] == 'literal' and c['value'] == '5'
+                              and c['key'] == legacy_keys[0]][:1] if legacy_keys else list(G.HISTORY_CASES)
+    for fam in ('rewrite', 'history'):
+        for a in reps:
+            for b in reps:
+                if a is not b:
+                    for style in STYLES:
+                        hist.append({'family': fam, 'steps': [a, b], 'style': style})
+    # a component that names a backend literally, then components that carry the legacy-only options of a backend
+    for pol in [c for c in backendvar if c['how'] == 'literal' and c['value'] == '5' and c['key'] == legacy_keys[0]]:
+        for sens in [c for c in backendvar if c['how'] != 'literal' and c['value'] == '5']:
+            hist.append({'family': 'history', 'steps': [pol, sens], 'style': 'sparse'})
+    if ctx.thorough:
+        for a in reps:
+            for b in reps:
+                for c in reps:
+                    if a is not b and b is not c:
+                        hist.append({'family': 'rewrite', 'steps': [a, b, c], 'style': 'sparse'})
+    cases += hist
     # end-to-end through DOSINIExperimentConfiguration (package on disk -> instance files written -> instance loaded)
     e2e = []
     for variant in range(4):
